@@ -1,5 +1,9 @@
 import vf, e2obs, steps, decode
 
+def quick_(tier):
+    return tier == 'quick'
+
+
 def build(tier):
     D = 2 if tier == "quick" else 4
     obs = [decode.ob_decode('C05', 'C05.a'), e2obs.ob_validate(D, tier), e2obs.ob_munch("C05", D), e2obs.ob_parser("C05", D), e2obs.ob_module_anywhere("C05", D, "D11")]
@@ -7,4 +11,6 @@ def build(tier):
     procs, special = steps.special_names()
     obs += steps.step_obligations('C05.d', ['@other'] + [p for p in procs if p in ('generic_command',)], tier, 0, 0, symargs=False)
     obs += steps.step_obligations('C05.d', ['function', 'set', 'cpp_member', 'ct_add_test', 'add_test', 'option', 'cmake_parse_arguments', 'endfunction', 'cpp_class', 'cpp_end_class', 'macro', 'cpp_attr'], tier, 1, 1, symargs=True)
+    if not quick_(tier):
+        obs.append(e2obs.ob_corpus())
     return dict(obligations=obs, explanation="x", assumptions=[])
